@@ -13,9 +13,10 @@ Specification: spec/PathPolicy/PathPolicy.tla
 Pipeline
   1. TLC exhaustive (MC_PathPolicy), five tables: every predicate shape x hop of a small domain; every
      interface list of length <= 5 (thorough 6) over 2 ASes x 2 interface ids (hop extraction); every
-     ACL with <= 3 entries over 4 predicates x every hop sequence up to length 4 (thorough 5) over 3 hops;
+     ACL with <= 3 entries over 4 predicates x every hop sequence up to length 3 (thorough 5) over 3 hops;
      every pattern (single expression of nesting depth <= 2, series of two expressions of depth <= 1,
-     series of three predicates; thorough: depth 3 over 2 predicates) x the same hop sequences; every
+     series of three predicates) x every hop sequence up to length 3, depth <= 1 up to length 4 (thorough: depth 2
+     up to length 5, depth 3 over 2 predicates up to length 4); every
      token string of length <= 5 (thorough 6).  TLC checks PatCode == PatAllows, AclCode == AclAllows except
      the documented empty-path deviation, print->parse round trips, and prints the expected verdicts.
      Oracle self-checks: a matcher without fixpoint, an alternation that commits to its left arm, and
@@ -27,10 +28,18 @@ Pipeline
      through PathPolicy::path_allowed.  P-monitors: verdict == specification, predicate print->parse
      round trip, printed variants agree, accepted token strings are in the documented syntax (and the
      other way round), no panic (parser, matcher, ParseError::report), every case under a watchdog.
-  3. record: seeded random deeper patterns (depth <= 5, thorough 6; series of <= 3; hop sequences <= 12),
+  4. text form of hop predicates: see predicate_text().
+  3. record: seeded random deeper patterns (depth <= 5, thorough 8; series of <= 3; hop sequences <= 12),
      random ACLs with <= 6 entries, random token strings (<= 12 tokens, including the unsupported ! and &),
      random sets of weighted policies {acl?, pattern?} (WeightedPolicies::match_highest) with the real verdicts, validated
      line by line by TLC (Trace_PathPolicy); random character strings for totality of the three parsers.
+
+Open finding AclEmptyPath:default-deny: AclPolicy::matches(&[]) returns the default action, so a deny-default
+ACL denies the empty hop sequence although no hop is denied (the statement over all hops is vacuously true).  The
+repository's OWN unit test pins this behaviour (acl.rs, should_make_correct_decision: `expect_decision("-", false,
+&[])  // default deny`), so a repair would have to edit that test; it is therefore recorded as an open finding under
+this one narrow key (only the empty hop sequence with a deny default; every other ACL verdict difference is
+`Acl:verdict` and fails the check).
 
 Reading adopted (demands less)
   * a 0 in a HOP's ISD or AS is not exercised (the code lets it match everything; the documentation only
@@ -39,7 +48,8 @@ Reading adopted (demands less)
     predicate without AS and one with the AS wildcard count as the same predicate (`1` == `1-0`).
   * error messages / spans are not compared; a rejected string is a violation only if it is in the
     documented syntax of step 1's grammar (series inside parentheses, !, & are not).
-  * termination: one enumerated or random policy (parse + all its matches) within a 20 s watchdog.
+  * termination: a policy whose parse + matches do not finish within the 20 s watchdog is reported as DRIFT
+    (inconclusive), never as a violation: slow is not non-terminating.
   * "without panicking" includes not killing the process: patterns nested 5000-50000 deep (15-50 KB of text)
     are parsed, matched and dropped in a child process on a 2 MiB thread stack.
 """
@@ -78,7 +88,84 @@ def cfg(c, name, **kw):
 
 def pv_report(c, pvs, label):
     for pv in pvs:
+        if pv["key"].startswith("Timeout:"):
+            c.drift("%s: %s (inconclusive, not a violation)" % (label, pv["what"]))
+            continue
         c.violation(pv["key"], "%s [%s]" % (pv["what"], label), pv.get("replay"))
+
+
+PRED_TYPES = ["HopPred", "IfPred"]
+AT_TMPL = """SPECIFICATION MCSpec
+CONSTANTS
+  FIXED = TRUE
+  FIXTXT = TRUE
+  MODE = "mc"
+  K_EDITS = {k}
+  MAXLEN = 40
+  SEEDSEL = {{"pred", "empty"}}
+  TSEL = {{"HopPred", "IfPred"}}
+  GEN = TRUE
+INVARIANTS NoPanic Sound Complete Emit
+"""
+
+
+def predicate_text(c, thorough):
+    """Text form of hop predicates (ISD[-AS[#IF[,IF]]]) and interface predicates, bound with the token-level
+    machinery of spec/AddrText (types HopPred / IfPred: documented grammar G, transcription I of
+    HopPredicate::from_str / InterfacesPredicate::from_str): TLC enumerates every token string within 1
+    (thorough 2) edits of the displayed forms and every string of <= 1 (2) tokens, replay on the real parsers, displayed forms of boundary and random
+    predicates parse back, single-character edits and short strings are judged by Trace_AddrText."""
+    from vcommon import read_ndjson as rd
+    b = c.cargo_build("vh-sciparse", bin="addrtext")
+    env = {"VERIF_TYPES": ",".join(PRED_TYPES)}
+    p = os.path.join(c.work, "mc_pred.cfg")
+    open(p, "w").write(AT_TMPL.format(k=2 if thorough else 1))
+    r = c.tlc("AddrText", "MC_AddrText", cfg=p, timeout=9000, coverage=False, xmx="10g")
+    for inv in r.violated:
+        c.violation("spec:pred:%s" % inv, "design-level: the transcription of the predicate parsers violates %s; see %s" % (inv, r.out_path), {"tlc_out": r.out_path})
+    cases = {tuple(cs["s"]): cs for cs in c.printed_json(r, "CASE")}
+    if not cases:
+        c.fail_tool("predicate text generation printed no cases")
+    rows = [{"ev": "meta", "variants": 6 if thorough else 3, "sample_every": 40}]
+    for cs in cases.values():
+        rows.append({"s": cs["s"], "g": cs["g"] if isinstance(cs["g"], dict) else {}, "i": cs["i"] if isinstance(cs["i"], dict) else {}})
+    if not any("HopPred" in r_["g"] for r_ in rows[1:]) or not any("IfPred" in r_["g"] for r_ in rows[1:]):
+        c.fail_tool("vacuous generation: no enumerated string is a hop predicate")
+    inp = os.path.join(c.work, "pred_cases.ndjson")
+    write_ndjson(inp, rows)
+    outp, tr1 = os.path.join(c.work, "pred_replay.json"), os.path.join(c.work, "pred_replay_trace.ndjson")
+    rc, so = c.sh([b, "replay", inp, outp, tr1], timeout=9000, env=env)
+    if rc != 0:
+        c.fail_tool("predicate text replay failed rc=%s %s" % (rc, so[-300:]))
+    res = json.load(open(outp))
+    c.cov["replayed"] += res["strings"]
+    c.cov["evaluations"] += res["parses"]
+    c.cov["predicate_text_replay"] = {k: res[k] for k in ("cases", "strings", "parses", "agree", "disagree", "relex_mismatch", "accepted_by_type")}
+    outp2, tr2 = os.path.join(c.work, "pred_record.json"), os.path.join(c.work, "pred_record_trace.ndjson")
+    rc, so = c.sh([b, "record", tr2, outp2], timeout=9000, env=dict(env, VERIF_EDITS=40000 if thorough else 4000, VERIF_SHORTN=5000 if thorough else 300))
+    if rc != 0:
+        c.fail_tool("predicate text record failed rc=%s %s" % (rc, so[-300:]))
+    res2 = json.load(open(outp2))
+    c.cov["predicate_text_record"] = {k: res2[k] for k in ("lines", "shown", "edits", "shorts", "accepted", "panics")}
+    for pv in res2["pv"]:
+        c.violation("PredText:" + pv["key"], pv["what"], {"text": pv["text"], "T": pv["T"], "kind": "RoundTrip"})
+    allp = os.path.join(c.work, "pred_traces.ndjson")
+    lines = [{"ev": "meta"}] + rd(tr1)[1:] + rd(tr2)[1:]
+    sides = [{"ev": "meta"}] + rd(tr1 + ".side")[1:] + rd(tr2 + ".side")[1:]
+    write_ndjson(allp, lines)
+    n = len(lines) - 1
+    c.cov["evaluations"] += sum(len(l["chk"]) for l in lines[1:])
+    r = c.tlc("AddrText", "Trace_AddrText", mode="mc", env={"TRACE": allp}, timeout=9000, coverage=False, xmx="8g")
+    if not r.ok or r.distinct != 1 + (n + 127) // 128 + n:
+        c.fail_tool("predicate text trace validation did not visit every line: %s" % r.out_path)
+    c.cov["traces_validated_against_impl"] += n
+    for x in c.printed_json(r, "PV"):
+        text = sides[x["l"] - 1]["text"]
+        what = {"Panic": "%s::from_str panics on %r", "Unsound": "%s::from_str accepts %r, which is not a documented predicate text",
+                "Value": "%s::from_str accepts %r with another value than the documented one"}[x["kind"]] % (x["T"], text)
+        c.violation("PredText:%s:%s:%s" % (x["kind"], x["T"], x["sig"]), what, {"text": text, "T": x["T"], "kind": x["kind"]}, group="PredText:%s" % x["kind"])
+    for x in c.printed_json(r, "DRIFT") + c.printed_json(r, "SHOWDRIFT"):
+        c.drift("predicate text: %s on %r: I-layer / grammar differs from the real outcome (%s)" % (x["T"], sides[x["l"] - 1]["text"], x.get("kind", "displayed form not in the grammar")))
 
 
 def replay_one(c, binp):
@@ -118,12 +205,13 @@ def run(c):
                   dict(kind="pattern", depth=2, wlen=5, chunk=16), dict(kind="pattern", depth=3, wlen=4, npred=2, chunk=16),
                   dict(kind="tokens", tlen=6, wlen=3, chunk=256)]
     else:
-        tables = [dict(kind="hopmatch", chunk=16), dict(kind="hops", ilen=5, chunk=64), dict(kind="acl", nacl=3, wlen=4, chunk=32),
-                  dict(kind="pattern", depth=2, wlen=4, chunk=16), dict(kind="tokens", tlen=5, wlen=3, chunk=256)]
+        tables = [dict(kind="hopmatch", chunk=16), dict(kind="hops", ilen=5, chunk=64), dict(kind="acl", nacl=3, wlen=3, chunk=32),
+                  dict(kind="pattern", depth=2, wlen=3, chunk=16), dict(kind="pattern", depth=1, wlen=4, chunk=16),
+                  dict(kind="tokens", tlen=5, wlen=3, chunk=256)]
     rows = []
     ncases = {}
     for ti, t in enumerate(tables):
-        r = c.tlc(SD, "MC_PathPolicy", cfg=cfg(c, "mc_%d.cfg" % ti, gen="TRUE", **t), timeout=3000, coverage=False, xmx="10g")
+        r = c.tlc(SD, "MC_PathPolicy", cfg=cfg(c, "mc_%d.cfg" % ti, gen="TRUE", **t), timeout=9000, coverage=False, xmx="10g")
         for inv in r.violated:
             c.violation("spec:%s" % inv, "design-level: %s violated on MC_PathPolicy %s (the transcription of the matcher differs from the denotational semantics); see %s" % (inv, t, r.out_path), {"tlc_out": r.out_path})
         if not r.ok and not r.violated:
@@ -150,7 +238,7 @@ def run(c):
     inp = os.path.join(c.work, "cases.ndjson")
     outp = os.path.join(c.work, "replay.json")
     write_ndjson(inp, rows)
-    rc, so = c.sh([binp, "replay", inp, outp], timeout=3000)
+    rc, so = c.sh([binp, "replay", inp, outp], timeout=9000)
     if rc != 0:
         c.fail_tool("replay harness failed rc=%s %s %s" % (rc, so[-300:], getattr(c, "last_stderr", "")[-300:]))
     res = json.load(open(outp))
@@ -175,7 +263,7 @@ def run(c):
     # ---- 3. record + trace validation ----------------------------------------------------------------
     tr = os.path.join(c.work, "trace.ndjson")
     outp = os.path.join(c.work, "record.json")
-    rc, so = c.sh([binp, "record", tr, outp], timeout=3000)
+    rc, so = c.sh([binp, "record", tr, outp], timeout=9000)
     if rc != 0:
         c.fail_tool("record harness failed rc=%s %s" % (rc, so[-300:]))
     res = json.load(open(outp))
@@ -185,11 +273,11 @@ def run(c):
     pv_report(c, res["pv"], "record")
     lines = read_ndjson(tr)
     n = len(lines) - 1
-    r = c.tlc(SD, "Trace_PathPolicy", mode="mc", env={"TRACE": tr}, timeout=3000, coverage=False, xmx="8g")
+    r = c.tlc(SD, "Trace_PathPolicy", mode="mc", env={"TRACE": tr}, timeout=9000, coverage=False, xmx="8g")
     chunks = (n + 63) // 64
     if not r.ok or r.distinct != 1 + chunks + n:
         c.fail_tool("trace validation did not visit every line (%d distinct states, %d lines): %s" % (r.distinct, n, r.out_path))
-    c.cov["traces_validated_against_impl"] = n
+    c.cov["traces_validated_against_impl"] += n
     for x in c.printed_json(r, "PV"):
         e = lines[x["l"] - 1]
         w = e["ws"][x["x"] - 1] if x["x"] else None
@@ -210,3 +298,6 @@ def run(c):
     for x in c.printed_json(r, "DRIFT"):
         c.drift("trace line %d: the I-layer (%s) differs from the real verdict although the property holds" % (x["l"], x["kind"]))
     c.sample({"recorded": {k: lines[len(lines) // 2].get(k) for k in ("ev", "text", "real")}})
+
+    # ---- 4. text form of hop predicates (token-level machinery of spec/AddrText) ---------------------------
+    predicate_text(c, thorough)
